@@ -31,6 +31,7 @@ RULE = ('Each case = a generated dense-template dataset {raw data int16/float32 
 RULE += ' Added classes: recordings spanning more than 2**32 samples; output paths with glob metacharacters (also as parent folder); sources shipped with a spike-waveform subset but without raw data; template_scaling in params.py; histories: the same creator converting again with another unit factor, and export / curation in the source / force=True re-export into the same directory.'
 RULE += ' Round 6: the refusal of the source directory also with force=True; a target differing from the source by letter case; truncated raw files; a Kilosort-2 templates_ind.npy.'
 RULE += " Round 7: spike seconds on a skewed clock (spikes.times.npy + spikes.samples.npy in a KS-named source); a sibling target sharing the source's name prefix; probe tables of any numeric dtype; int32 / int64 / uint32 channel maps; a channel listed twice in a feature column table."
+RULE += ' Round 8: probe tables with three and four probes; convert(out, label=None); fractional sampling rates.'
 EXHAUSTIVE = {'quick': False, 'thorough': False}
 FLOORS = {'quick': {'evaluations': 600, 'distinct_nontrivial': 300},
           'thorough': {'evaluations': 9000, 'distinct_nontrivial': 5000}}
